@@ -938,6 +938,65 @@ func stressHedge(seed int64, scale int) int {
 		runs++
 		v.count("nested-hedges")
 	}
+	// a Timeout inside the hedge policy, and a cancel condition that does not accept its error: one attempt's Timeout has fired
+	// (and recorded its result in the state the attempts share) when another attempt wins - the third, still outstanding, is
+	// cancelled all the same when the execution returns
+	for i := 0; i < scale; i++ {
+		hp := hedgepolicy.BuilderWithDelay[int](50 * time.Millisecond).WithMaxHedges(2).CancelIf(func(r int, err error) bool { return err == nil }).Build()
+		to := timeout.With[int](150 * time.Millisecond)
+		var seq atomic.Int32
+		var nmu sync.Mutex
+		execs := map[int32]failsafe.Execution[int]{}
+		firstTimedOut, thirdStarted, thirdWoke := make(chan struct{}), make(chan struct{}), make(chan time.Time, 1)
+		res, err := failsafe.NewExecutor[int](hp, to).GetWithExecution(func(e failsafe.Execution[int]) (int, error) {
+			n := seq.Add(1)
+			nmu.Lock()
+			execs[n] = e
+			nmu.Unlock()
+			switch n {
+			case 1:
+				<-e.Canceled()
+				close(firstTimedOut)
+				return -1, errX
+			case 2:
+				<-firstTimedOut
+				select {
+				case <-thirdStarted:
+				case <-time.After(time.Second):
+				}
+				return 42, nil
+			default:
+				close(thirdStarted)
+				select {
+				case <-e.Canceled():
+				case <-time.After(2 * time.Second):
+				}
+				thirdWoke <- time.Now()
+				return -3, errX
+			}
+		})
+		returned := time.Now()
+		nmu.Lock()
+		third := execs[3]
+		nmu.Unlock()
+		if err != nil || res != 42 || third == nil {
+			v.count("hedge-over-timeout/inconclusive") // under load the winner's own Timeout may fire first
+		} else {
+			if !third.IsCanceled() {
+				v.add("hedge over timeout: after one attempt's Timeout had fired another attempt won, and the third, still outstanding, was not cancelled when the execution returned")
+			}
+			select {
+			case w := <-thirdWoke:
+				if w.Sub(returned) > 40*time.Millisecond {
+					v.add(fmt.Sprintf("hedge over timeout: the outstanding attempt's context ended %v after the execution returned (its own Timeout, not the hedge policy, ended it)", w.Sub(returned).Round(time.Millisecond)))
+				}
+			case <-time.After(3 * time.Second):
+				v.add("hedge over timeout: the outstanding attempt never ended")
+			}
+		}
+		runs++
+		v.count("hedge-over-timeout-after-sibling-timed-out")
+	}
 	return v.report("hedge", runs)
 }
 
